@@ -120,6 +120,15 @@ def apply(h, m, op, handles):
         a = d.add_op(O.Noop(), d.inputs()[0])
         d.add_state_order(d.input_node, a)
         d.set_outputs(a, a)
+        variant = parent % 3          # (derived from the operation itself, so that a history replays identically)
+        if variant >= 1:
+            # parallel order links, and an order-port source attached to a value in-port
+            d.hugr.add_link(d.input_node.out(-1), a.inp(-1))
+            d.hugr.add_link(a.out(-1), d.output_node.inp(-1))
+            d.hugr.add_link(a.out(-1), d.output_node.inp(-1))
+        if variant == 2:
+            d.hugr.add_link(d.input_node.out(-1), a.inp(1))
+            d.hugr.add_link(d.input_node.out(0), a.inp(0))       # a second link on an in-port
         before = {i: dict(v, children=list(v["children"])) for i, v in m.nodes.items()}
         mapping = h.insert_hugr(d.hugr, Node(parent))
         inv = {k.idx: v.idx for k, v in mapping.items()}
